@@ -24,7 +24,7 @@ RULE = (
     "whose invariant held at both ends, traces = sweeps fully validated; non-trivial = A non-zero; distinct = sha1(input, variant, tol)"
 )
 BOUNDS = {
-    "quick": "n<=3 (n=4 for 4 classes), 11 input classes, 17 variant cells, budgets {0,1,2,3,5,10,50,300}, tol {1e-10,1e-6}",
+    "quick": "n<=3 (n=4 for 4 classes), 17 input classes, 19 variant cells (incl. experimental window=2 < n), budgets {0,1,2,3,5,10,50,300}, tol {1e-10,1e-6}",
     "thorough": "n<=5, budgets up to 500, 2 fill rows",
 }
 WALL_BUDGET = {"quick": 900, "thorough": 3400}
@@ -36,6 +36,8 @@ VARIANTS = (
     + [("quaternion_schur_pure_implicit", {})]
     + [("quaternion_schur_unified", {"variant": v, "precompute_shifts": ps}) for v in ("none", "rayleigh", "implicit", "aed", "ds") for ps in ((True, False) if v in ("aed", "ds") else (True,))]
     + [("quaternion_schur_experimental", {"variant": v}) for v in ("aed_windowed", "francis_ds")]
+    # window smaller than the matrix (the default window of 12 never bites for n <= 5)
+    + [("quaternion_schur_experimental", {"variant": v, "window": 2}) for v in ("aed_windowed", "francis_ds")]
 )
 CLASSES = ["generic", "hermitian", "hermitian_repeat", "triu", "normal", "rank1", "q8int", "zero_first_col", "zero_subdiag", "identity", "zero", "near_hermitian", "near_triu", "scaled_2^-30", "scaled_2^30"]
 
